@@ -8,6 +8,7 @@ once with position-dependent patterns and odd write sizes; concurrent tunnels wi
 import sys, json, ssl, itertools
 sys.path.insert(0, '/verif/e4')
 from lib import *
+import ssl
 from lib import _echo_loop
 
 chk = Check('C01')
@@ -56,6 +57,32 @@ def cmd_origin(c, a, rec):
                 pass
         except OSError:
             pass
+    elif parts[0] == 'sink':
+        # the origin has nothing to say (ends its own direction at once) but keeps reading - slowly, from a small
+        # receive window: the relay has to queue, and the client finishes while that queue is not empty
+        tok, n = parts[1], int(parts[2])
+        try:
+            c.shutdown(socket.SHUT_WR)
+        except OSError:
+            pass
+        time.sleep(1.0)
+        got = bytearray(rest)
+        how = 'eof'
+        c.settimeout(15)
+        try:
+            while True:
+                d = c.recv(65536)
+                if not d:
+                    break
+                got += d
+                time.sleep(0.002)
+        except socket.timeout:
+            how = 'timeout'
+        except OSError as e:
+            how = type(e).__name__
+        want = pattern(n, 31)
+        with vlock:
+            verdicts[tok] = (len(got), bytes(got) == want, how)
     elif parts[0] == 'flood':
         # origin speaks first and stops the moment the proxy's socket towards the (not yet reading) client is full:
         # watched in /proc/net/tcp; then stays silent with the connection open
@@ -377,6 +404,36 @@ def script_slow_consumer(lname, pa, n):
     finally:
         s.close()
 
+def script_half_closed_sink(lname, pa, n):
+    """the origin ends its own direction first and reads slowly; the client pushes n bytes and ends: once both directions
+    have ended the proxy closes its sockets - with part of the stream possibly still queued in them"""
+    tok = new_tok()
+    s, rest = open_tunnel(lname, pa, origin.port, f'sink {tok} {n}\n'.encode())
+    try:
+        s.settimeout(60)
+        s.sendall(pattern(n, 31))
+        try:
+            (s.unwrap() if isinstance(s, ssl.SSLSocket) else s).shutdown(socket.SHUT_WR)
+        except (OSError, ValueError):
+            pass
+        v = None
+        for _ in range(500):
+            with vlock:
+                v = verdicts.get(tok)
+            if v:
+                break
+            time.sleep(0.05)
+        if not v:
+            return 'half-closed-sink:origin still reading 25 s after the client had sent everything and ended'
+        if not v[1] or v[2] != 'eof':
+            return f'half-closed-sink:origin got {v[0]}/{n} bytes, then {v[2]}'
+        return 'ok'
+    finally:
+        try:
+            s.close()
+        except OSError:
+            pass
+
 def script_tls_backpressure(lname, pa):
     """TLS towards the client, client not reading: the origin stops exactly when the proxy's socket is full and
     pauses; whatever the proxy has taken from the origin must still reach the client"""
@@ -476,6 +533,11 @@ def run_cell(cell):
             out.append((sname, fn()))
         except Exception as e:
             out.append((sname, f'tunnel-not-established:{e!r}'[:200]))
+    if slow and lname in ('http', 'socks5', 'socks4') and bufsz != 1:
+        try:
+            out.append(('half-closed-sink', script_half_closed_sink(lname, pa, 6 << 20)))
+        except Exception as e:
+            out.append(('half-closed-sink', f'tunnel-not-established:{e!r}'[:200]))
     if lname in ('http', 'socks5') and cname in ('direct', 'http'):
         try:
             out.append(('after-aborted-tunnel', script_after_aborted_tunnel(lname, pa)))
